@@ -91,7 +91,7 @@ def run(ctx):
                       "obtained through getattr, the instance value store, or the class-level Parameter (self_.cls.param[...] / type(...).param[...]) -- never from `.default` / `._inspect` / "
                       "`.__get__` of a Parameter object looked up in the instance namespace, which may be a per-instance copy still holding the default it was created with", floor=2)
     ctx.rule("R13.h", "namespace model: ParameterizedMetaclass.__setattr__ / _clear_params_cache, Parameters.add_parameter and the _cls_parameters property interpreted abstractly on the hierarchy "
-                      "A <- B <- C (B overrides one parameter) under every history of up to 3 class-level operations (namespace reads, value sets, Parameter sets, add_parameter on any class, 1830 histories): "
+                      "A <- B <- C (B overrides one parameter) under every history of up to 3 class-level operations (namespace reads, value sets, Parameter sets, add_parameter on any class, 1830 histories) and, for multiple inheritance, on the diamond D(B, E) over A with an override on E only (up to 2 operations): "
                       "every .param lookup lists exactly the names attribute lookup finds and, for each, the very Parameter that governs attribute access; a class-level set is copy-on-write", floor=1)
     ctx.rule("R13.f", "the memo is never mutated in place (it is handed out by reference); invalidation rebinds it", floor=1)
     ctx.not_decided += ["identity/equality of `.param[name]` and the governing descriptor after arbitrary histories (follows from R13.a-c but is not itself executed)"]
